@@ -1,9 +1,11 @@
 #!/bin/sh
-# run every registered quick (or $1=thorough) check sequentially; print one line each
+# run every registered quick (or $1=thorough) check sequentially from the checkout this script lives in; print one line each
 TIER=${1:-quick}
-cd /verif
+cd "$(dirname "$0")/.." || exit 2
+L=$(mktemp -d)
 for p in C01 C02 C03 C04 C05 C06 C07 C08 C09 C10 C11 C12 C13 C14 C15 C16 C17 C18 C19 C20; do
-  ./check $p $TIER > /tmp/runall_$p.log 2>&1; rc=$?
-  echo "$p rc=$rc $(head -1 /tmp/runall_$p.log)"
-  grep -E "^(VIOLATION|INCONCLUSIVE)" /tmp/runall_$p.log | head -3
+  ./check $p $TIER > $L/$p.log 2>&1; rc=$?
+  echo "$p rc=$rc $(head -1 $L/$p.log)"
+  grep -aE "^(VIOLATION|INCONCLUSIVE)" $L/$p.log | head -3
 done
+rm -rf $L
